@@ -3,7 +3,7 @@
    known license for the words of its key or of one of its aliases (ignoring case). *)
 Require Import Model.Base Model.Expr Model.Split Model.Trie Model.Overlap Model.LicTok Model.BoolParse Model.Licensing.
 Require Import Proofs.Symbol Proofs.Strings Proofs.Split Proofs.Overlap Proofs.Trie Proofs.Recognise Proofs.Cover Proofs.Select
-               Proofs.WithGroup Proofs.SimpleAgree.
+               Proofs.WithGroup Proofs.SimpleAgree Proofs.ParseLits.
 From Coq Require Import Lia ZifyBool.
 Open Scope Z_scope.
 
@@ -99,20 +99,33 @@ Proof.
       apply filter_In. split; [exact Hp0 | unfold inside; lia].
 Qed.
 
+(* the string of a token starts with a character that is not white space *)
+Definition starts_word (t : tok) : Prop := exists c0 r, tstring t = c0 :: r /\ is_space O c0 = false.
+
 (* a match owns exactly the word pieces whose words spell the stored name *)
 Lemma matched_group (t : tok) : In t (t_iter O tr text) ->
   exists sp v, tvalue t = Some v /\ grp t <> [] /\ get_out (lws O (grp t)) (outs tr) = Some (sp, v) /\
-               tstart t = pstart (hd dpiece (grp t)).
+               tstart t = pstart (hd dpiece (grp t)) /\ starts_word t.
 Proof.
-  intro H. apply (scan_exact O tr W text) in H as [pre [mid [post [sp [v [E [Hne [G ->]]]]]]]].
-  change {| pstart := 0; ptext := [] |} with dpiece.
+  intro H. pose proof (match_inside O tr W text t H) as [_ [_ [_ Hwf]]].
+  apply (scan_exact O tr W text) in H as [pre [mid [post [sp [v [E [Hne [G ->]]]]]]]].
+  change {| pstart := 0; ptext := [] |} with dpiece in *.
+  assert (Hst : starts_word (occurrence_tok text mid (last mid dpiece) v)).
+  { assert (Hin : In (hd dpiece mid) wps) by (rewrite E; apply in_or_app; right; apply in_or_app; left; apply hd_in; exact Hne).
+    apply filter_In in Hin as [Hp0 Wp0].
+    destruct (word_piece_head O _ Wp0) as [c0 [r [Ht Hs]]].
+    pose proof (piece_is_slice O text _ Hp0) as Sl. rewrite Ht in Sl. symmetry in Sl.
+    assert (Cs : tstart (occurrence_tok text mid (last mid dpiece) v) = pstart (hd dpiece mid)) by (apply occ_start; exact Hne).
+    destruct (slice_head text (pstart (hd dpiece mid)) _ (tend (occurrence_tok text mid (last mid dpiece) v)) c0 r Sl ltac:(lia)) as [r2 E2].
+    exists c0, r2. split; [|exact Hs]. cbn [tstring occurrence_tok]. cbn [tend occurrence_tok] in E2.
+    destruct mid; [contradiction | exact E2]. }
   assert (Eg : grp (occurrence_tok text mid (last mid dpiece) v) = mid).
   { unfold grp. rewrite E. apply filter_window.
     - rewrite <- E. apply word_pieces_incr.
     - exact Hne.
     - unfold inside. apply occ_start; exact Hne.
     - reflexivity. }
-  exists sp, v. rewrite Eg. split; [reflexivity|]. split; [exact Hne|]. split; [exact G | apply occ_start; exact Hne].
+  exists sp, v. rewrite Eg. split; [reflexivity|]. split; [exact Hne|]. split; [exact G|]. split; [apply occ_start; exact Hne | exact Hst].
 Qed.
 
 (* an unmatched token owns its piece *)
@@ -128,15 +141,15 @@ Qed.
 (* what each token of Trie.tokenize stands for *)
 Definition tok_acc (t : tok) (g : list piece) : Prop :=
   match tvalue t with
-  | Some v => g <> [] /\ (exists sp, get_out (lws O g) (outs tr) = Some (sp, v)) /\ tstart t = pstart (hd dpiece g)
+  | Some v => g <> [] /\ (exists sp, get_out (lws O g) (outs tr) = Some (sp, v)) /\ tstart t = pstart (hd dpiece g) /\ starts_word t
   | None => exists p, g = [p] /\ In p P /\ is_word_piece O p = true /\ t = unmatched p
   end.
 
 Theorem tokens_accounted : Forall (fun t => tok_acc t (grp t)) (t_tokenize O tr text).
 Proof.
   apply Forall_forall. intros t Ht. unfold t_tokenize in Ht. apply retok_from_word in Ht as [Hm|[p [Hp [Hw ->]]]].
-  - apply fo_sub in Hm. destruct (matched_group t Hm) as [sp [v [Ev [Hne [G Hs]]]]].
-    unfold tok_acc. rewrite Ev. split; [exact Hne|]. split; [exists sp; exact G | exact Hs].
+  - apply fo_sub in Hm. destruct (matched_group t Hm) as [sp [v [Ev [Hne [G [Hs Hw]]]]]].
+    unfold tok_acc. rewrite Ev. split; [exact Hne|]. split; [exists sp; exact G|]. split; [exact Hs | exact Hw].
   - unfold tok_acc. cbn [tvalue unmatched]. exists p. split; [apply unmatched_group; assumption|]. repeat split; assumption.
 Qed.
 
@@ -168,7 +181,7 @@ Lemma mk_symbol_words ws sy : Forall (word O) ws -> ws <> [] -> mk_symbol O (joi
 Proof.
   intros Hw Hne. unfold mk_symbol, mk_key.
   destruct (join_sp ws) as [|c0 s0] eqn:E; [exfalso; apply (join_sp_nonempty O ws Hw Hne); exact E|]. rewrite <- E.
-  rewrite (strip_join O sp_is_space ws Hw). rewrite E. rewrite <- E.
+  rewrite (strip_join O ws Hw). rewrite E. rewrite <- E.
   destruct (negb (forallb (valid_key_char O) (join_sp ws))); [discriminate|].
   rewrite (norm_spaces_join O sp_is_space ws Hw).
   destruct (is_keyword_str (lower O (join_sp ws))); [discriminate|]. cbn [obind]. intro H. inversion H; subst. split; reflexivity.
@@ -188,7 +201,7 @@ Qed.
 
 (* after the merger: a token stands for a stored name, or is a new symbol whose key is its words *)
 Definition tok_acc1 (t : ltok) (g : list piece) : Prop :=
-  g <> [] /\ tstart t = pstart (hd dpiece g) /\
+  g <> [] /\ tstart t = pstart (hd dpiece g) /\ starts_word O t /\
   match tvalue t with
   | Some v => (exists sp, get_out (lws O g) (outs tr) = Some (sp, v)) \/
               (exists sy, v = VSym sy /\ exc sy = false /\ key sy = join_sp (map ptext g) /\ Forall wordp g /\
@@ -209,18 +222,22 @@ Lemma flush_acc unm gu r : pending_ok unm gu -> flush_unknown O unm = Ok r ->
 Proof.
   intros [Hs [Hw [Hb Hst]]] Hf. destruct unm as [|u rest].
   - cbn in Hf. inversion Hf; subst. destruct gu; [|discriminate]. exists []. split; [constructor | reflexivity].
-  - rewrite (flush_nonblank u rest Hb) in Hf. rewrite Hs in Hf.
+  - pose proof (flush_nonblank u rest Hb) as Hfl. rewrite Hfl in Hf. clear Hfl.
+    remember (rev (u :: rest)) as ru eqn:Eru.
+    assert (Hru : ru <> []).
+    { intro E. rewrite E in Eru. apply (f_equal (@length ltok)) in Eru. rewrite rev_length in Eru. discriminate. }
+    rewrite Hs in Hf.
     assert (Hne : gu <> []).
-    { intro E. subst gu. cbn in Hs. apply (f_equal (@length str)) in Hs. rewrite map_length, rev_length in Hs. discriminate. }
+    { intro E. subst gu. destruct ru; [contradiction | discriminate]. }
     assert (Hww : Forall (word O) (map ptext gu)).
     { apply Forall_forall. intros w Hin. apply in_map_iff in Hin as [p [<- Hp]]. apply wordp_word. rewrite Forall_forall in Hw. apply Hw; exact Hp. }
     assert (Hne' : map ptext gu <> []) by (destruct gu; [contradiction | discriminate]).
     destruct (mk_symbol O (join_sp (map ptext gu)) false) as [sy| | | | |] eqn:Em; try discriminate. cbn [obind] in Hf. inversion Hf; subst r.
     destruct (mk_symbol_words _ sy Hww Hne' Em) as [Hk He].
     exists [gu]. split; [|cbn; rewrite app_nil_r; reflexivity]. constructor; [|constructor].
-    unfold tok_acc1. cbn [tstart tvalue tstring]. split; [exact Hne|]. split.
-    + destruct (rev (u :: rest)) as [|t0 l] eqn:Er; [|exact Hst]. exfalso.
-      apply (f_equal (@length ltok)) in Er. rewrite rev_length in Er. discriminate.
+    unfold tok_acc1. cbn [tstart tvalue tstring]. split; [exact Hne|]. split; [|split].
+    + destruct ru as [|t0 l]; [contradiction | exact Hst].
+    + destruct (join_words_head O (map ptext gu) Hww Hne') as [c0 [r0 [Ej Hc0]]]. exists c0, r0. cbn [tstring]. split; assumption.
     + right. exists sy. repeat split; assumption.
 Qed.
 
@@ -239,7 +256,7 @@ Proof.
       destruct (IH gs0 [] [] post HF' pending_nil Eb) as [g2 [F2 E2]].
       exists (g1 ++ g :: g2). split.
       * apply Forall2_app; [exact F1|]. constructor; [|exact F2].
-        destruct Ht as [Hne [Hg Hs]]. unfold tok_acc1. rewrite Ev. split; [exact Hne|]. split; [exact Hs | left; exact Hg].
+        destruct Ht as [Hne [Hg [Hs Hsw]]]. unfold tok_acc1. rewrite Ev. split; [exact Hne|]. split; [exact Hs|]. split; [exact Hsw | left; exact Hg].
       * rewrite concat_app. cbn [concat]. rewrite E1, E2. reflexivity.
     + destruct Ht as [p [-> [HpP [Hw ->]]]].
       assert (Hnb : tok_blank O (unmatched p : ltok) = false).
@@ -258,10 +275,259 @@ Proof.
           + cbn [app]. rewrite Hst. destruct gu as [|q gu']; [|reflexivity]. exfalso.
             apply (f_equal (@length str)) in Hs. rewrite !map_length in Hs. discriminate. }
       cbn [concat]. destruct unm as [|u rest].
-      * rewrite Hnb in Hb. destruct gu; [|destruct Hs as [Hs]; discriminate].
+      * rewrite Hnb in Hb. destruct gu; [|discriminate Hs].
         destruct (IH gs0 [unmatched p] ([] ++ [p]) r HF' Hp' Hb) as [gs' [F E]]. exists gs'. split; [exact F | exact E].
       * destruct (IH gs0 (unmatched p :: u :: rest) (gu ++ [p]) r HF' Hp' Hb) as [gs' [F E]]. exists gs'. split; [exact F|].
         rewrite E. rewrite <- app_assoc. reflexivity.
+Qed.
+
+
+(* ---- the blank filter drops nothing here ---- *)
+Lemma drop_blank_id : forall (r : list ltok) gs, Forall2 tok_acc1 r gs -> drop_blank O r = r.
+Proof.
+  induction r as [|t r IH]; intros gs HF; [reflexivity|]. inversion HF as [|? g ? gs0 Ht HF']; subst.
+  unfold drop_blank in *. cbn [filter]. destruct Ht as [_ [_ [[c0 [r0 [Es Hc]]] _]]]. rewrite Es.
+  unfold tok_blank, blank. rewrite Es. cbn [forallb]. rewrite Hc. cbn [andb negb]. f_equal. apply (IH gs0 HF').
+Qed.
+
+(* ---- what a (type, string, position) triple of Licensing.tokenize stands for ---- *)
+Section Triples.
+(* what a keyword value / a symbol value accounts for, left abstract: the two tokenizers differ here *)
+Variable A_kw : kw -> list piece -> Prop.
+Variable A_sym : sym -> list piece -> Prop.
+
+Definition vtok_acc (t : ltok) (g : list piece) : Prop :=
+  g <> [] /\ tstart t = pstart (hd dpiece g) /\
+  match tvalue t with Some (VKw k) => A_kw k g | Some (VSym s) => A_sym s g | None => False end.
+
+Definition ptok_acc (p : ptok) (g : list piece) : Prop :=
+  g <> [] /\ ppos p = pstart (hd dpiece g) /\
+  match pt p with
+  | TA => A_kw KAnd g | TO => A_kw KOr g | TL => A_kw KLp g | TR => A_kw KRp g
+  | TS (Plain s) => A_sym s g
+  | TS (With l r) => exists gl gw gr, g = gl ++ gw ++ gr /\ A_kw KWith gw /\ A_sym l gl /\ A_sym r gr
+  end.
+
+Lemma hd_app_ne (a b : list piece) : a <> [] -> hd dpiece (a ++ b) = hd dpiece a.
+Proof. destruct a; [contradiction | reflexivity]. Qed.
+
+Lemma replace_acc strict : forall n (toks : list ltok) gs ptoks, (length toks <= n)%nat ->
+  Forall2 vtok_acc toks gs -> replace_with O strict (greedy toks) = Ok ptoks ->
+  exists gs', Forall2 ptok_acc ptoks gs' /\ concat gs' = concat gs.
+Proof.
+  induction n as [|n IH]; intros toks gs ptoks Hl HF Hr.
+  - destruct toks; [|simpl in Hl; lia]. inversion HF; subst. cbn in Hr. inversion Hr; subst. exists []. split; [constructor | reflexivity].
+  - destruct toks as [|a rest]; [inversion HF; subst; cbn in Hr; inversion Hr; subst; exists []; split; [constructor | reflexivity]|].
+    inversion HF as [|? ga ? gs0 Ha HF0]; subst.
+    (* one token taken *)
+    assert (One : replace_with O strict (G1 a :: greedy rest) = Ok ptoks ->
+                  exists gs', Forall2 ptok_acc ptoks gs' /\ concat gs' = concat (ga :: gs0)).
+    { cbn [replace_with]. intro H1. destruct Ha as [Hne [Hs Hv]]. destruct (tvalue a) as [[k|s]|] eqn:Ev; [| |discriminate].
+      - destruct (tk_of_kw k) as [ty|] eqn:Ek; [|discriminate].
+        destruct (replace_with O strict (greedy rest)) as [r0| | | | |] eqn:Er; try discriminate. cbn [obind] in H1. inversion H1; subst ptoks.
+        destruct (IH rest gs0 r0 ltac:(simpl in Hl; lia) HF0 Er) as [g' [F' E']].
+        exists (ga :: g'). split; [|cbn [concat]; rewrite E'; reflexivity]. constructor; [|exact F'].
+        unfold ptok_acc. cbn [pt ppos]. split; [exact Hne|]. split; [exact Hs|].
+        destruct k; inversion Ek; subst; exact Hv.
+      - destruct (strict && exc s); [discriminate|].
+        destruct (replace_with O strict (greedy rest)) as [r0| | | | |] eqn:Er; try discriminate. cbn [obind] in H1. inversion H1; subst ptoks.
+        destruct (IH rest gs0 r0 ltac:(simpl in Hl; lia) HF0 Er) as [g' [F' E']].
+        exists (ga :: g'). split; [|cbn [concat]; rewrite E'; reflexivity]. constructor; [|exact F'].
+        unfold ptok_acc. cbn [pt ppos]. split; [exact Hne|]. split; [exact Hs | exact Hv]. }
+    cbn [greedy] in Hr. destruct rest as [|w [|b rest']]; [apply One; exact Hr | apply One; exact Hr |].
+    destruct (is_with3 a w b) eqn:E3; [|apply One; exact Hr].
+    inversion HF0 as [|? gw ? gs1 Hw HF1]; subst. inversion HF1 as [|? gb ? gs2 Hb HF2]; subst.
+    cbn [replace_with] in Hr.
+    unfold is_with3, is_sym_tok, is_with_tok in E3.
+    destruct Ha as [Hne [Hs Hva]]. destruct Hw as [_ [_ Hvw]]. destruct Hb as [_ [_ Hvb]].
+    destruct (tvalue a) as [[ka|l]|] eqn:Eva; try discriminate.
+    destruct (tvalue w) as [[[]|sw]|] eqn:Evw; try discriminate.
+    destruct (tvalue b) as [[kb|r]|] eqn:Evb; try discriminate.
+    destruct (strict && exc l); [discriminate|]. destruct (strict && negb (exc r)); [discriminate|].
+    destruct (replace_with O strict (greedy rest')) as [r0| | | | |] eqn:Er; try discriminate. cbn [obind] in Hr. inversion Hr; subst ptoks.
+    destruct (IH rest' gs2 r0 ltac:(simpl in Hl; lia) HF2 Er) as [g' [F' E']].
+    exists ((ga ++ gw ++ gb) :: g'). split.
+    + constructor; [|exact F'].
+      unfold ptok_acc. cbn [pt ppos]. split; [destruct ga; [contradiction | discriminate]|].
+      split; [rewrite hd_app_ne by exact Hne; exact Hs|]. exists ga, gw, gb. repeat split; assumption.
+    + cbn [concat]. rewrite E'. rewrite <- !app_assoc. reflexivity.
+Qed.
+
+End Triples.
+
+(* the default tokenizer: a keyword / a known license stands for the words under which it is stored,
+   an unknown license for the words of its key *)
+Definition kw_acc (k : kw) (g : list piece) : Prop :=
+  exists name, In (name, VKw k) keyword_adds /\ lws O g = lwords O name.
+Definition sym_acc (s : sym) (g : list piece) : Prop :=
+  (exists name, In (name, VSym s) (flat_map (entry_adds O) T) /\ lws O g = lwords O name) \/
+  (exc s = false /\ key s = join_sp (map ptext g) /\ Forall wordp g /\ g <> []).
+
+Lemma stored_in_table g sp v : get_out (lws O g) (outs tr) = Some (sp, v) ->
+  In (sp, v) (keyword_adds ++ flat_map (entry_adds O) T) /\ lwords O sp = lws O g.
+Proof.
+  unfold build_trie. cbn [outs t_make_automaton].
+  change (add_all O t_empty (keyword_adds ++ flat_map (entry_adds O) T)) with (add_ops O t_empty (keyword_adds ++ flat_map (entry_adds O) T)).
+  rewrite (get_out_add_ops O _ t_empty (lws O g) eq_refl).
+  destruct (stored O (keyword_adds ++ flat_map (entry_adds O) T) (lws O g)) as [[n w]|] eqn:Es; [|cbn; discriminate].
+  intro H. inversion H; subst. destruct (stored_words O _ _ _ _ Es) as [A B]. split; assumption.
+Qed.
+
+Lemma entry_adds_sym e n v : In (n, v) (entry_adds O e) -> exists s, v = VSym s.
+Proof.
+  unfold entry_adds. intros [H|H]; [inversion H; eexists; reflexivity|].
+  apply in_flat_map in H as [a [_ H]]. destruct a; [destruct H|]. destruct H as [H|[]]. inversion H. eexists; reflexivity.
+Qed.
+
+Lemma value_kw g sp k : get_out (lws O g) (outs tr) = Some (sp, VKw k) -> kw_acc k g.
+Proof.
+  intro G. destruct (stored_in_table g sp (VKw k) G) as [Hin Hl]. exists sp. split; [|symmetry; exact Hl].
+  apply in_app_or in Hin as [H|H]; [exact H|]. exfalso.
+  apply in_flat_map in H as [e [_ H]]. destruct (entry_adds_sym e sp _ H) as [s Hs]. discriminate.
+Qed.
+
+Lemma value_sym g sp s : get_out (lws O g) (outs tr) = Some (sp, VSym s) -> sym_acc s g.
+Proof.
+  intro G. destruct (stored_in_table g sp (VSym s) G) as [Hin Hl]. left. exists sp. split; [|symmetry; exact Hl].
+  apply in_app_or in Hin as [H|H]; [|exact H]. exfalso. unfold keyword_adds in H. simpl in H.
+  repeat (destruct H as [H|H]; [discriminate|]). destruct H.
+Qed.
+
+Lemma tok_acc1_vtok t g : tok_acc1 t g -> vtok_acc kw_acc sym_acc t g.
+Proof.
+  intros [Hne [Hs [_ Hv]]]. split; [exact Hne|]. split; [exact Hs|].
+  destruct (tvalue t) as [[k|s]|]; [| |exact Hv].
+  - destruct Hv as [[sp G]|[sy [E _]]]; [apply (value_kw g sp k G) | discriminate].
+  - destruct Hv as [[sp G]|[sy [E [He [Hk [Hw _]]]]]]; [apply (value_sym g sp s G)|].
+    inversion E; subst sy. right. repeat split; try assumption.
+Qed.
+
+(* ---- C01, default tokenizer: the words of the text are accounted for by the tokens, in order ---- *)
+Theorem words_accounted strict ptoks : lic_tokenize O T strict false text = Ok ptoks ->
+  exists gs, concat gs = filter (is_word_piece O) (pieces O text) /\ Forall2 (ptok_acc kw_acc sym_acc) ptoks gs.
+Proof.
+  unfold lic_tokenize. destruct text as [|c0 s0] eqn:Etext.
+  - intro H. inversion H; subst. exists []. split; [reflexivity | constructor].
+  - rewrite <- Etext in *. cbn [obind]. intro H.
+    set (toks := t_tokenize O tr text) in *.
+    destruct (build_unknown O [] toks) as [r| | | | |] eqn:Eb; try discriminate. cbn [obind] in H.
+    assert (HF : Forall2 (tok_acc O tr text) toks (map (grp O text) toks)).
+    { pose proof (tokens_accounted O tr (build_trie_wf O T) text) as Ha. fold toks in Ha.
+      clear -Ha. induction toks as [|t l IH]; [constructor|]. inversion Ha; subst. constructor; [assumption | apply IH; assumption]. }
+    destruct (build_unknown_acc toks _ [] [] r HF pending_nil Eb) as [gs1 [F1 E1]].
+    rewrite (drop_blank_id r gs1 F1) in H. rewrite group_with_greedy in H.
+    assert (F1v : Forall2 (vtok_acc kw_acc sym_acc) r gs1).
+    { clear -F1. induction F1; constructor; [apply tok_acc1_vtok; assumption | assumption]. }
+    destruct (replace_acc kw_acc sym_acc strict (length r) r gs1 ptoks (le_n _) F1v H) as [gs' [F' E']].
+    exists gs'. split; [|exact F']. rewrite E', E1. cbn [app]. rewrite <- flat_map_concat_map.
+    apply (groups_partition O tr (build_trie_wf O T) text).
+Qed.
+
+
+(* ---- C01, simple tokenizer: one token per non-blank piece ---- *)
+Definition kw_word (k : kw) : str :=
+  match k with KAnd => s_and | KOr => s_or | KWith => s_with | KLp => s_lpar | KRp => s_rpar end.
+Definition kw_acc_s (k : kw) (g : list piece) : Prop :=
+  exists p, g = [p] /\ (lower O (ptext p) = kw_word k \/ ptext p = kw_word k).
+Definition sym_acc_s (s : sym) (g : list piece) : Prop :=
+  exists p, g = [p] /\ ((exists e, In e T /\ s = entry_sym e /\ lower O (ptext p) = lower O (ekey e)) \/
+                        (exc s = false /\ key s = ptext p)).
+
+Lemma lookup_lower_in : forall T' l s, lookup_lower O T' l = Some s ->
+  exists e, In e T' /\ s = entry_sym e /\ lower O (ekey e) = l.
+Proof.
+  induction T' as [|e T' IH]; intros l s H; [discriminate|]. cbn [lookup_lower] in H.
+  destruct (lookup_lower O T' l) as [s'|] eqn:E.
+  - inversion H; subst. destruct (IH l s E) as [e' [He [Hs Hl]]]. exists e'. split; [right; exact He | split; assumption].
+  - destruct (str_eqb (lower O (ekey e)) l) eqn:Eq; [|discriminate]. inversion H; subst.
+    exists e. split; [left; reflexivity | split; [reflexivity | apply str_eqb_eq; exact Eq]].
+Qed.
+
+Lemma simple_token_acc p t : In p P -> is_word_piece O p = true -> simple_token O T p = Ok t ->
+  vtok_acc kw_acc_s sym_acc_s t [p].
+Proof.
+  intros Hp Hw. unfold simple_token. destruct (piece_cls O p) eqn:Ec.
+  - unfold is_word_piece in Hw. rewrite Ec in Hw. discriminate.
+  - intro H. inversion H; subst t. split; [discriminate|]. split; [reflexivity|]. cbn [tvalue].
+    exists p. split; [reflexivity|]. right.
+    destruct (piece_cls_spec O text p Hp) as [Hall Hlen]. specialize (Hlen Ec).
+    destruct (ptext p) as [|c [|c2 r]] eqn:Et; try discriminate.
+    assert (Hcp : is_paren c = true).
+    { specialize (Hall c (or_introl eq_refl)). rewrite Ec in Hall. unfold cls_of in Hall.
+      destruct (is_space O c); [discriminate|]. destruct (is_paren c); [reflexivity | discriminate]. }
+    unfold is_paren, c_lpar, c_rpar in Hcp. apply orb_true_iff in Hcp as [H1|H1]; apply N.eqb_eq in H1; subst c; reflexivity.
+  - destruct (str_eqb (lower O (ptext p)) s_and) eqn:E1.
+    { intro H. inversion H; subst t. split; [discriminate|]. split; [reflexivity|]. cbn [tvalue].
+      exists p. split; [reflexivity|]. left. apply str_eqb_eq. exact E1. }
+    destruct (str_eqb (lower O (ptext p)) s_or) eqn:E2.
+    { intro H. inversion H; subst t. split; [discriminate|]. split; [reflexivity|]. cbn [tvalue].
+      exists p. split; [reflexivity|]. left. apply str_eqb_eq. exact E2. }
+    destruct (str_eqb (lower O (ptext p)) s_with) eqn:E3.
+    { intro H. inversion H; subst t. split; [discriminate|]. split; [reflexivity|]. cbn [tvalue].
+      exists p. split; [reflexivity|]. left. apply str_eqb_eq. exact E3. }
+    destruct (lookup_lower O T (lower O (ptext p))) as [s|] eqn:El.
+    + intro H. inversion H; subst t. split; [discriminate|]. split; [reflexivity|]. cbn [tvalue].
+      exists p. split; [reflexivity|]. left. destruct (lookup_lower_in T _ s El) as [e [He [Hs Hl]]].
+      exists e. repeat split; try assumption. symmetry; exact Hl.
+    + destruct (mk_symbol O (ptext p) false) as [sy| | | | |] eqn:Em; cbn [obind]; try discriminate.
+      intro H. inversion H; subst t. split; [discriminate|]. split; [reflexivity|]. cbn [tvalue].
+      exists p. split; [reflexivity|]. right.
+      assert (Hww : Forall (word O) [ptext p]) by (constructor; [apply wordp_word; split; assumption | constructor]).
+      destruct (mk_symbol_words [ptext p] sy Hww ltac:(discriminate) Em) as [Hk He]. split; [exact He | exact Hk].
+Qed.
+
+Lemma simple_tokens_acc : forall ps S, (forall p, In p ps -> In p P) -> mapo (simple_token O T) ps = Ok S ->
+  Forall2 (vtok_acc kw_acc_s sym_acc_s) (drop_blank O S) (map (fun p => [p]) (filter (is_word_piece O) ps)).
+Proof.
+  induction ps as [|p ps IH]; intros S Hsub Hm; cbn [mapo] in Hm.
+  - inversion Hm; subst. constructor.
+  - destruct (simple_token O T p) as [t| | | | |] eqn:Eg; try discriminate. cbn [obind] in Hm.
+    destruct (mapo (simple_token O T) ps) as [S0| | | | |] eqn:Em; try discriminate. cbn [obind] in Hm. inversion Hm; subst S.
+    assert (Hsub' : forall q, In q ps -> In q P) by (intros q Hq; apply Hsub; right; exact Hq).
+    specialize (IH S0 Hsub' eq_refl). cbn [filter]. destruct (is_word_piece O p) eqn:Ew.
+    + destruct (simple_token_shape O T p t Eg) as [Hs _].
+      destruct (word_piece_nonblank O text p (Hsub p (or_introl eq_refl)) Ew) as [Hne Hnb].
+      rewrite drop_blank_cons_keep; [|rewrite Hs; exact Hne | unfold tok_blank; rewrite Hs; exact Hnb].
+      cbn [map]. constructor; [|exact IH]. apply (simple_token_acc p t (Hsub p (or_introl eq_refl)) Ew Eg).
+    + destruct (space_piece_token O T text p (Hsub p (or_introl eq_refl)) Ew) as [t' [Eg' Hb]].
+      rewrite Eg in Eg'. inversion Eg'; subst t'. rewrite drop_blank_cons_drop by exact Hb. exact IH.
+Qed.
+
+Theorem words_accounted_simple strict ptoks : lic_tokenize O T strict true text = Ok ptoks ->
+  exists gs, concat gs = filter (is_word_piece O) (pieces O text) /\ Forall2 (ptok_acc kw_acc_s sym_acc_s) ptoks gs.
+Proof.
+  unfold lic_tokenize. destruct text as [|c0 s0] eqn:Etext.
+  - intro H. inversion H; subst. exists []. split; [reflexivity | constructor].
+  - rewrite <- Etext in *. rewrite simple_tokens_mapo.
+    destruct (mapo (simple_token O T) P) as [S| | | | |] eqn:Em; try discriminate. cbn [obind].
+    rewrite (build_unknown_valued O S (simple_valued O T text P S (fun p H => H) Em)). cbn [obind].
+    rewrite group_with_greedy. intro H.
+    pose proof (simple_tokens_acc P S (fun p H => H) Em) as HF.
+    destruct (replace_acc kw_acc_s sym_acc_s strict _ _ _ ptoks (le_n _) HF H) as [gs' [F' E']].
+    exists gs'. split; [|exact F']. rewrite E'. clear. induction (filter (is_word_piece O) P) as [|p l IH]; [reflexivity|].
+    cbn [map concat app]. rewrite IH. reflexivity.
+Qed.
+
+
+(* ---- the whole statement for parse() ---- *)
+Theorem parse_accounted strict e : parse_tokens O T strict false text = Ok e ->
+  exists ptoks gs, lic_tokenize O T strict false text = Ok ptoks /\ literals e = tok_atoms ptoks /\
+                   concat gs = filter (is_word_piece O) (pieces O text) /\ Forall2 (ptok_acc kw_acc sym_acc) ptoks gs.
+Proof.
+  unfold parse_tokens. destruct (lic_tokenize O T strict false text) as [ptoks| | | | |] eqn:El; try discriminate. cbn [obind].
+  intro H. destruct (bparse ptoks) as [e'| | |] eqn:Eb; try discriminate. cbn [of_pres] in H. inversion H; subst e'.
+  destruct (words_accounted strict ptoks El) as [gs [E F]].
+  exists ptoks, gs. split; [reflexivity|]. split; [apply bparse_literals; exact Eb|]. split; assumption.
+Qed.
+
+Theorem parse_accounted_simple strict e : parse_tokens O T strict true text = Ok e ->
+  exists ptoks gs, lic_tokenize O T strict true text = Ok ptoks /\ literals e = tok_atoms ptoks /\
+                   concat gs = filter (is_word_piece O) (pieces O text) /\ Forall2 (ptok_acc kw_acc_s sym_acc_s) ptoks gs.
+Proof.
+  unfold parse_tokens. destruct (lic_tokenize O T strict true text) as [ptoks| | | | |] eqn:El; try discriminate. cbn [obind].
+  intro H. destruct (bparse ptoks) as [e'| | |] eqn:Eb; try discriminate. cbn [of_pres] in H. inversion H; subst e'.
+  destruct (words_accounted_simple strict ptoks El) as [gs [E F]].
+  exists ptoks, gs. split; [reflexivity|]. split; [apply bparse_literals; exact Eb|]. split; assumption.
 Qed.
 
 End Merge.
